@@ -1,9 +1,9 @@
 package main
 
 import (
-	"sort"
 	"fmt"
 	"regexp"
+	"sort"
 	"strings"
 
 	"golang.org/x/tools/go/ssa"
